@@ -59,6 +59,8 @@ def history_plan(rng, tier, levels, silent_streak=False, identity_changes=True, 
         d = rng.random() < 0.5 if discover is None else discover
         if not d:
             cfg["engine_id"] = eng
+        elif rng.random() < 0.35:
+            cfg["engine_id_empty"] = True
         sessions.append(cfg)
     rows = agent["mib"]
     oids = [r[0] for r in rows] or ["1.3.6.1.2.1.1.1.0"]
